@@ -13,7 +13,7 @@ import (
 // p fifo / char device or absent. Permission/special bits, uid, gid symbolic; mtimes from a small
 // set; regular files carry 0..maxb symbolic bytes. Returns the expected view (path -> entry).
 func symDiskTree(root string, maxb int) {
-	// S selects the optional parts of the universe: 1 = h (hard link), 2 = l (symlink), 4 = p (fifo/device), 8 = e
+	// S selects the optional parts of the universe: 1 = h (hard link), 2 = l (symlink), 4 = p (fifo/device), 8 = e, 16 = zl (second name of the symlink l)
 	sel := v.Param("S", 15)
 	perm := func() uint32 { return v.U32("perm") & 07777 }
 	// NZ=1: ids are symbolic but non-zero (Stat.SizeVT forks on the zero-ness of every field, which
@@ -51,6 +51,10 @@ func symDiskTree(root string, maxb int) {
 	}
 	if sel&2 != 0 && v.Bool("has-l") {
 		m.MkSymlink(root+"/l", []string{"d/f", "d"}[v.Choose("target-l", 2)], id("uid"), id("gid"), chooseMtime("mtime"))
+		if sel&16 != 0 && v.Bool("has-l2") {
+			// a second name of the symlink's inode (link(2) on a symlink), in another directory
+			m.MkLink(root+"/l", root+"/zl")
+		}
 	}
 	cp := 0
 	if sel&4 != 0 {
